@@ -125,8 +125,16 @@ def run(ctx: Ctx):
         ctx.count(1, nontrivial_key=(b, o, t, cart, f))
     for i, r in enumerate(recs):
         r["tid"] = i
-    for c0 in range(0, len(recs), 5):
-        rejects = ctx.validate("Product_Trace", "Product_Trace.cfg", recs[c0:c0 + 5], name=f"product_{c0}", timeout=1800)
+    # the trace spec carries the family that holds the factor as STATE across records: every chunk starts with the
+    # same deciding grid (n_b >= 4 and f # 1), so that all grids are held to one family
+    chunk = 12
+    for c0 in range(0, len(recs), chunk):
+        part = recs[c0:c0 + chunk]
+        lead = dict(recs[1])
+        lead["tid"] = recs[1]["tid"]
+        if c0 > 0:
+            part = [lead] + part
+        rejects = ctx.validate("Product_Trace", "Product_Trace.cfg", part, name=f"product_{c0}", timeout=2400)
         for tid, clause, _ in rejects:
             r = recs[tid]
             ctx.violation(f"FullGrid(b='{r['b']}', o='{r['o']}', t='{r['t']}', cartesian={r['cartesian']}, factor={r['f']}): {clause}",
